@@ -386,6 +386,7 @@ func planC14(g *Gen, tier string) ([]SQLCase, map[string]int, bool) {
 	cases := []SQLCase{}
 	stats := map[string]int{}
 	add := func(tag string, r *RCase) {
+		r.Root = len(cases)%3 == 1 // every third import goes through the root package's wrapper
 		cases = append(cases, SQLCase{Kind: "r", Tag: tag, R: r})
 		stats[tag]++
 	}
